@@ -203,6 +203,10 @@ func genSqlr(r *Rng) *Enc {
 	o.ParseDates = parseDates
 	if handlerKind != 0 || len(parseDates) > 0 {
 		opts = append(opts, o)
+		if r.Chance(6) {
+			// a second option struct: only the first one counts
+			opts = append(opts, dataframe.SQLReadOption{NullHandler: "skip_row", ParseDates: append([]string{}, names...)})
+		}
 	}
 
 	// ---- emit the input ----
